@@ -218,3 +218,36 @@ Theorem C15_eloss_model_cases : forall ml me mt mr bv,
   (m = 1%nat -> ml * ml < 4 * bv /\ mr < 1 /\ 10 * me <= ml /\ mt <= 2 * me).
 Proof. exact eloss_model_cases. Qed.
 Print Assumptions C15_eloss_model_cases.
+
+(** ** Part 4: exactness at alpha = 1 and mean of the energy-loss models *)
+Theorem C15_gamma_no_boost_from_one : forall alpha beta s, 1 <= alpha ->
+  gamma (T:=R) alpha beta s =
+  match gamma_outer (length s) (alpha - 1 / 3) (rsqrt (9 * (alpha - 1 / 3))) None s with
+  | Some (dv, s') => Some (dv * beta, s')
+  | None => None
+  end.
+Proof. exact gamma_no_boost_from_one. Qed.
+Print Assumptions C15_gamma_no_boost_from_one.
+
+(** Urban model: in every branch of the constructor (no excitation, single
+    level, two levels; with or without width correction) the first moments of its
+    parameters add up to the requested mean energy loss:
+    scaling * (Sigma_0 E_0 + Sigma_1 E_1 + Sigma_ion <E_ion>) = mean *)
+Theorem C15_urban_params_mean : forall (m : urban_mat (T:=R)) unscaled Emax tmb bsq,
+  0 < unscaled -> 1 / 100000 < Emax ->
+  0 < um_be0 m -> 0 < um_be1 m -> um_f0 m + um_f1 m = 1 -> 0 <= um_f0 m -> 0 <= um_f1 m ->
+  um_f0 m * um_lbe0 m + um_f1 m * um_lbe1 m = um_logI m -> um_lbe0 m <= um_lbe1 m ->
+  urban_params_first_moment (fst (urban_construct m unscaled Emax tmb bsq)) = unscaled.
+Proof. exact urban_params_mean. Qed.
+Print Assumptions C15_urban_params_mean.
+
+Theorem C15_eloss_gamma_params_mean : forall mean var : R, 0 < mean -> 0 < var ->
+  let k := mean * mean / var in let theta := mean / k in
+  k * theta = mean /\ k * (theta * theta) = var /\ 0 < k /\ 0 < theta.
+Proof. exact eloss_gamma_params_mean. Qed.
+Print Assumptions C15_eloss_gamma_params_mean.
+
+Theorem C15_eloss_gauss_window_symmetric : forall mean x : R,
+  (0 < x < 2 * mean) <-> (0 < 2 * mean - x < 2 * mean).
+Proof. exact eloss_gauss_window_symmetric. Qed.
+Print Assumptions C15_eloss_gauss_window_symmetric.
